@@ -79,6 +79,11 @@ class ErrAdapter(Adapter):
 
 class MechAdapter(Adapter):
     def __init__(self, kind):
+        # '<kind>:sens': sensitivities are enabled once at creation and never
+        # toggled by the harness, so that fix/release calls have to keep the
+        # selection of sensitivities up to date themselves
+        self.keep_sens = kind.endswith(':sens')
+        kind = kind.split(':')[0]
         self.kind = kind
         if kind == 'toy':
             self.names = ['p0', 'p1', 'p2']
@@ -98,7 +103,10 @@ class MechAdapter(Adapter):
         return m
 
     def make(self):
-        return chi.ReducedMechanisticModel(self._model())
+        m = chi.ReducedMechanisticModel(self._model())
+        if self.keep_sens:
+            m.enable_sensitivities(True)
+        return m
 
     def names_of(self, obj):
         return list(obj.parameters())
@@ -107,6 +115,9 @@ class MechAdapter(Adapter):
         return obj.n_fixed_parameters()
 
     def observe(self, obj, x, free_idx):
+        if self.keep_sens:
+            y2, S = obj.simulate(list(x), self.times)
+            return {'y': y2, 'y_s': y2, 'S': S}
         obj.enable_sensitivities(False)
         y = obj.simulate(list(x), self.times)
         obj.enable_sensitivities(True)
@@ -340,7 +351,21 @@ def w_history(case):
         for i, tag in op[1]:
             d[ad.names[i]] = None if tag == 'free' else value_of(ad, i, tag)
             state[i] = tag
-        ad.fix(obj, d)
+        try:
+            ad.fix(obj, d)
+        except ValueError as e:
+            if 'None of the parameters could be identified' in str(e) and \
+                    all(s_ != 'free' for s_ in state):
+                # known finding F-C08-all-fixed-sens
+                return {'state': 'EXC-all-fixed-sens', 'transitions': 1,
+                        'outcome': 'raise', 'violations': [{
+                            'sub': 'fix_all', 'message': 'fixing every parameter '
+                            'of %s while sensitivities are enabled raises: %s'
+                            % (kind, str(e)[:80]), 'history': history,
+                            'expected': 'all parameters fixed',
+                            'observed': repr(e)[:200],
+                            'behaviour': 'all_fixed_sens'}]}
+            raise
     lab = '%s %s' % (kind, history)
     free = [i for i in range(n) if state[i] == 'free']
     e_names = [ad.names[i] for i in free]
@@ -409,7 +434,8 @@ def ops_for(n, with_eval=True):
 
 
 WORKERS = {}
-ALL_KINDS = ['err:G', 'err:M', 'err:CM', 'err:LN', 'mech:toy', 'mech:sbml', 'll',
+ALL_KINDS = ['err:G', 'err:M', 'err:CM', 'err:LN', 'mech:toy', 'mech:sbml',
+             'mech:toy:sens', 'mech:sbml:sens', 'll',
              'pred', 'poppred', 'ctrl'] + ['pop:' + k for k in POP_SPECS]
 for _k in ALL_KINDS:
     WORKERS['fix_' + _k] = w_history
@@ -429,7 +455,8 @@ def make_search(kind, depth):
 
 def build(tier, seed):
     kinds = ALL_KINDS if tier == 'thorough' else [
-        'err:CM', 'mech:toy', 'mech:sbml', 'll', 'pred', 'poppred', 'ctrl',
+        'err:CM', 'mech:toy', 'mech:sbml', 'mech:sbml:sens', 'll', 'pred',
+        'poppred', 'ctrl',
         'pop:G1', 'pop:comp', 'pop:cov', 'pop:H1']
     depth = 12   # the searches stop at closure (no new abstract state)
     return {
